@@ -339,11 +339,21 @@ def run_wordlist_alignments(chk):
                 d[k] = d[k] + [regroup[key]]
             ref = 'altid'
         try:
-            alm = Alignments(d, ref='cogid')
-            if ref != 'cogid':
-                alm.add_alignments(ref=ref)
-            alm.align(method=rng.choice(['progressive', 'library']), mode=rng.choice(['global', 'overlap', 'dialign']),
-                      iteration=rng.random() < 0.5, **({'ref': ref} if ref != 'cogid' else {}))
+            if ref == 'cogid' and rng.random() < 0.25:
+                # aligned with the scores of a cognate-detection object (scoredict=): the sequences are then that object's numeric
+                # encoding, the stored alignments are segments all the same - with and without refinement and swap check
+                from lingpy import LexStat
+                lex_ = LexStat(d)
+                alm = Alignments(lex_, ref='cogid')
+                alm.align(method=rng.choice(['progressive', 'library']), scoredict=lex_.bscorer, iteration=rng.random() < 0.6,
+                          swap_check=rng.random() < 0.3)
+                chk.hist['Alignments.align(scoredict=...) on a LexStat-derived object'] += 1
+            else:
+                alm = Alignments(d, ref='cogid')
+                if ref != 'cogid':
+                    alm.add_alignments(ref=ref)
+                alm.align(method=rng.choice(['progressive', 'library']), mode=rng.choice(['global', 'overlap', 'dialign']),
+                          iteration=rng.random() < 0.5, **({'ref': ref} if ref != 'cogid' else {}))
         except Exception as ex:  # noqa
             fails.append((d, 'raised %s: %s' % (type(ex).__name__, str(ex)[:100])))
             continue
